@@ -273,9 +273,13 @@ def check(spec):
             if soft:
                 raw.bools = []
             refs.append(lpkit.solve(raw))
-        if is_err(res):
-            if any(s[0] == "infeasible" for s in refs):
-                return out.drop("split_interval_infeasible")   # documented: raises (DESIGN 6.1 observations)
+        if isinstance(res, str) and res != "inaccurate" and any(s[0] == "infeasible" for s in refs):
+            out.label("split_interval_infeasible_reported")
+            out.nontrivial = True
+            return out
+        if is_err(res) or (isinstance(res, str) and res != "inaccurate"):
+            if is_err(res) and any(s[0] == "infeasible" for s in refs):
+                return out.fail("split optimize raised %s for an infeasible interval instead of reporting failure" % res.short())
             # every interval is feasible: does another backend behind the same translation solve it?
             for alt in (["SCIP", "SCIPY"] if mip else ["SCIPY", "CLARABEL", "SCIP"]):
                 if alt == solver:
@@ -284,9 +288,11 @@ def check(spec):
                 r2 = eao_call(r.op.optimize, **k2)
                 if not is_err(r2) and not isinstance(r2, str):
                     return out.drop("backend_disagreement:" + str(solver))
-            return out.fail("split optimize raised " + res.short())
+            if is_err(res):
+                return out.fail("split optimize raised " + res.short())
+            return out.fail("split optimize reports '%s' although every interval is feasible" % res)
         if isinstance(res, str):
-            return out.drop("split_status_string")
+            return out.drop("split_inaccurate")
         x = np.asarray(res.x, float)
         pos = 0
         tot = 0.0
